@@ -231,6 +231,9 @@ func (arch *Arch) Assembler_process_line(line []byte) (string, error) {
 			for i, op := range arch.Op {
 				if op.Op_get_name() == words[0] {
 					if result, err := op.Assembler(arch, words[1:]); err == nil {
+						if opbits+len(result) != arch.Max_word() {
+							return "", Prerror{"Operand does not fit the instruction word, error processing " + op.Op_get_name()}
+						}
 						return zeros_prefix(opbits, get_binary(i)) + result, nil
 					} else {
 						return "", Prerror{err.Error() + ", error processing " + op.Op_get_name()}
